@@ -56,6 +56,7 @@ HTML_INL = ["<span class=\"a b\">", "</span>", "<br/>", "<b>", "</b>", "<a href=
 TAG_INL = ["{% tag %}", "{% tag a=1 b=\"two words\" %}", "{{ var }}", "{{ a.b | f(\"x y\") }}", "{# note's #}",
            "<!-- c \"q\" -->", "{% f %}{% /f %}", "{% if x %}", "{% endif %}", "{% t x=\"a...b\" %}", "{{ a...b }}",
            "<!-- wait... \"q\" it's -->", "{# it's... so #}",
+           "{% tag \"中文abc\" %}", "<!-- 汉字note2 -->", "{{ 变量name }}",
            # a tag body may contain the first character of its own closing delimiter
            "{% if n % 10 == 0 and s == \"Loading...please wait\" %}", "{# issue #12: later...maybe it's #}", "{{ {\"a\": \"wait...what\"}|tojson }}"]
 ESCAPES = ["\\*", "\\_", "\\#", "\\[x\\]", "\\>", "a\\|b", "&amp;", "&lt;", "&#35;", "&copy;", "3\\)", "\\-", "\\+"]
